@@ -6,6 +6,7 @@
 #include <string.h>
 #include <pthread.h>
 #include <limits.h>
+#include <time.h>
 #include "myth/myth.h"
 
 #define W(name, cond) _Static_assert(cond, "WITNESS:" #name)
@@ -31,4 +32,9 @@ W(magic_values_distinct, myth_mutex_magic_no != myth_mutex_magic_no_initializing
 W(magic_inside_pthread_mutex, offsetof(myth_mutex_t, magic) + sizeof(int) <= sizeof(pthread_mutex_t));
 W(once_init_value, myth_once_state_init == PTHREAD_ONCE_INIT);
 W(barrier_serial_differs_from_zero, MYTH_BARRIER_SERIAL_THREAD != 0 && PTHREAD_BARRIER_SERIAL_THREAD != 0);
+#endif
+
+#ifdef WG_clock
+/* the constant the checker compares the clock id of hr_gettime with */
+W(clock_realtime_is_zero, CLOCK_REALTIME == 0);
 #endif
